@@ -324,6 +324,17 @@ def main(tier: str) -> int:
             run.violation({"clause": "end-to-end-resolution", "table": case["key"]["table"]},
                           f"through the serializer, an id on the wire does not resolve to the string the writer meant ({v} at row {verdicts18[i]['at']}); "
                           f"statements {case['replay']['statements'][:2]}", case["replay"])
+        # ... and on the READER side as the parser drives its tables (Decoder on top of LookupDecoder): what comes back is what the writer meant
+        from .. import impl as _impl, terms as _terms  # noqa: PLC0415
+        try:
+            back = [_terms.norm_item(x) for x in _impl.parse("generic", case["res"]["bytes"], "flat")] if case["res"]["bytes"] else []
+        except Exception as ex:  # noqa: BLE001
+            back = f"{type(ex).__name__}: {str(ex)[:80]}"
+        want_b = [_terms.norm_item(x) for x in case["res"]["accepted"]]
+        if back != want_b:
+            run.violation({"clause": "end-to-end-resolution-reader", "table": case["key"]["table"]},
+                          f"through serializer and parser, the statements read back differ from those written ({back if isinstance(back, str) else 'item ' + str(next((k for k, (a, b) in enumerate(zip(back, want_b)) if a != b), min(len(back), len(want_b))))})",
+                          case["replay"])
     states += gen18
     trans += gen18
     real_transitions += e2e
